@@ -7,6 +7,8 @@ use std::{
 };
 pub mod stdlib;
 
+const MAX_NATIVE_DEPTH: usize = 256;
+
 #[derive(Debug, Eq, Clone)]
 pub enum Type {
     String,
@@ -289,29 +291,31 @@ impl Value {
         matches!(self, Self::Identifier(..))
     }
 
+    // a native object that can be evaluated (a let binding, request.source ...) stands for the
+    // value it evaluates to, which may again be such an object
     pub fn real_type_of(&self, ctx: ScriptContextRef) -> Result<Type, Error> {
-        let t = self.type_of(ctx.clone())?;
-        if let Type::NativeObject(o) = t {
-            if let Some(e) = o.as_evaluatable() {
-                e.type_of(ctx)
-            } else {
-                Ok(Type::NativeObject(o))
+        let mut t = self.type_of(ctx.clone())?;
+        for _ in 0..MAX_NATIVE_DEPTH {
+            match &t {
+                Type::NativeObject(o) if o.as_evaluatable().is_some() => {
+                    t = o.as_evaluatable().unwrap().type_of(ctx.clone())?;
+                }
+                _ => return Ok(t),
             }
-        } else {
-            Ok(t)
         }
+        bail!("native objects nested too deep")
     }
     pub fn real_value_of(&self, ctx: ScriptContextRef) -> Result<Value, Error> {
-        let t = self.value_of(ctx.clone())?;
-        if let Self::NativeObject(o) = t {
-            if let Some(e) = o.as_evaluatable() {
-                e.value_of(ctx)
-            } else {
-                Ok(Self::NativeObject(o))
+        let mut t = self.value_of(ctx.clone())?;
+        for _ in 0..MAX_NATIVE_DEPTH {
+            match &t {
+                Self::NativeObject(o) if o.as_evaluatable().is_some() => {
+                    t = o.as_evaluatable().unwrap().value_of(ctx.clone())?;
+                }
+                _ => return Ok(t),
             }
-        } else {
-            Ok(t)
         }
+        bail!("native objects nested too deep")
     }
 }
 
